@@ -145,8 +145,9 @@ static void op_threads(const V &a, V &r) {
 static void op_ledger(const V &a, V &r) {
     int ty = a[0]; int p1 = a[1], p2 = a[2], p3 = a[3], p4 = a[4];
     LweParams *lp = new_LweParams(p1 > 0 ? p1 : 1, 0., 0.25), *lo = new_LweParams(p4 > 0 ? p4 : 1, 0., 0.25);
-    TLweParams *tp = new_TLweParams(ty >= 5 && ty != 9 && ty != 12 ? (ty == 10 ? 1024 : p1) : 16, p2 > 0 ? p2 : 1, 0., 0.25); TGswParams *gp = new_TGswParams(p3 > 0 ? p3 : 1, 2, tp);
+    TLweParams *tp = new_TLweParams(ty >= 20 ? 1024 : ty >= 5 && ty != 9 && ty != 12 ? (ty == 10 ? 1024 : p1) : 16, p2 > 0 ? p2 : 1, 0., 0.25); TGswParams *gp = new_TGswParams(p3 > 0 ? p3 : 1, 2, tp);
     torusPolynomialMultFFT; // (keeps the FFT symbols linked)
+    { LagrangeHalfCPolynomial *w = new_LagrangeHalfCPolynomial(1024); delete_LagrangeHalfCPolynomial(w); }   // the thread's FFT processor is created on first use
     void *obj = 0; reset_tab(); tracking = true;
     switch (ty) {
         case 0: obj = new_LweSample(lp); break; case 1: obj = new_LweSample_array(p2, lp); break; case 2: obj = new_LweKey(lp); break;
@@ -155,6 +156,12 @@ static void op_ledger(const V &a, V &r) {
         case 10: obj = new_LweBootstrappingKey(2, 2, lp, gp); break; case 11: obj = new_TGswParams(p3, 2, tp); break; case 12: obj = new_LweParams(p1, 0., 0.25); break;
         case 13: obj = new_TLweSample_array(p4, tp); break; case 14: obj = new_IntPolynomial_array(p2, p1); break; case 15: obj = new_LagrangeHalfCPolynomial(p1); break;
         case 16: obj = new_TGswSampleFFT(gp); break; case 17: obj = new_TLweSampleFFT(tp); break;
+        // array constructors and FFT-domain keys (balance only: nothing may stay allocated after the matching delete)
+        case 20: obj = new_LweKey_array(p4, lp); break; case 21: obj = new_TorusPolynomial_array(p4, p1); break; case 22: obj = new_TLweKey_array(p4, tp); break;
+        case 23: obj = new_TGswSample_array(p4, gp); break; case 24: obj = new_TGswKey_array(p4, gp); break; case 25: obj = new_LweKeySwitchKey_array(p4, 3, 2, 1, lo); break;
+        case 26: obj = new_LweBootstrappingKey_array(p4, 2, 2, lp, gp); break; case 27: obj = new_LagrangeHalfCPolynomial_array(p4, p1); break;
+        case 28: obj = new_TGswSampleFFT_array(p4, gp); break; case 29: obj = new_TLweSampleFFT_array(p4, tp); break;
+        case 30: obj = new_LweParams_array(p4, p1, 0., 0.25); break; case 31: obj = new_TLweParams_array(p4, p1, p2, 0., 0.25); break; case 32: obj = new_TGswParams_array(p4, p3, 2, tp); break;
     }
     tracking = false;
     r.push_back(sizeof(LweSample)); r.push_back(sizeof(LweKey)); r.push_back(sizeof(TorusPolynomial)); r.push_back(sizeof(TLweSample)); r.push_back(sizeof(TLweKey));
@@ -168,6 +175,11 @@ static void op_ledger(const V &a, V &r) {
         case 9: delete_LweKeySwitchKey((LweKeySwitchKey *) obj); break; case 10: delete_LweBootstrappingKey((LweBootstrappingKey *) obj); break; case 11: delete_TGswParams((TGswParams *) obj); break;
         case 12: delete_LweParams((LweParams *) obj); break; case 13: delete_TLweSample_array(p4, (TLweSample *) obj); break; case 14: delete_IntPolynomial_array(p2, (IntPolynomial *) obj); break;
         case 15: delete_LagrangeHalfCPolynomial((LagrangeHalfCPolynomial *) obj); break; case 16: delete_TGswSampleFFT((TGswSampleFFT *) obj); break; case 17: delete_TLweSampleFFT((TLweSampleFFT *) obj); break;
+        case 20: delete_LweKey_array(p4, (LweKey *) obj); break; case 21: delete_TorusPolynomial_array(p4, (TorusPolynomial *) obj); break; case 22: delete_TLweKey_array(p4, (TLweKey *) obj); break;
+        case 23: delete_TGswSample_array(p4, (TGswSample *) obj); break; case 24: delete_TGswKey_array(p4, (TGswKey *) obj); break; case 25: delete_LweKeySwitchKey_array(p4, (LweKeySwitchKey *) obj); break;
+        case 26: delete_LweBootstrappingKey_array(p4, (LweBootstrappingKey *) obj); break; case 27: delete_LagrangeHalfCPolynomial_array(p4, (LagrangeHalfCPolynomial *) obj); break;
+        case 28: delete_TGswSampleFFT_array(p4, (TGswSampleFFT *) obj); break; case 29: delete_TLweSampleFFT_array(p4, (TLweSampleFFT *) obj); break;
+        case 30: delete_LweParams_array(p4, (LweParams *) obj); break; case 31: delete_TLweParams_array(p4, (TLweParams *) obj); break; case 32: delete_TGswParams_array(p4, (TGswParams *) obj); break;
     }
     tracking = false;
     r.push_back(-1); r.push_back((ll) live_blocks); r.push_back((ll) live_bytes);
